@@ -15,9 +15,10 @@ vector.  Hash *sets* are duplicate-free lists in insertion order; the only place
 iteration order of a `HashSet` is observable (`on_connection_closed`) is canonicalised by the
 harness and by the driver (sorted by id).
 
-`fx = true` is the code as repaired for finding `C45-late-handler-event` (`if removed { emit }`);
-`fx = false` is the original code (`debug_assert!(removed)`, then emit unconditionally), kept for
-the counterexample theorem.  `dbg` = `cfg!(debug_assertions)`.
+`fx = false` is THE MODEL: the code as it is (`debug_assert!(removed)`, then the event is emitted
+unconditionally).  `fx = true` is a defensive variant (`if removed { emit }`) used only as a proof
+device: it satisfies the invariant for every op order, and on in-contract operations
+(`inContract`) it coincides with the code.  `dbg` = `cfg!(debug_assertions)`.
 
 Not modelled: `remote_address`/`addresses` (no influence on the bookkeeping), `u64` overflow of the
 request-id counter (`Nat` here), and the `debug_assert_eq!(connections.is_empty(),
@@ -210,6 +211,28 @@ def step (fx : Bool) (s : St) : Op → St × Out
     else if s.dbg then (s', { panic := some "debug_assert removed" })
     else (s', { evs := [hInEv p c id k] })
 
+/-- **The environment contract** (what a real `Swarm` + `Handler` deliver): `ConnectionClosed` only
+for an established connection; a completion event (`Response`, `OutboundTimeout`,
+`OutboundUnsupportedProtocols`, `OutboundStreamFailed`, `ResponseSent`, `ResponseOmission`) only for a
+request that is pending on that live connection; a `Request` event does not re-use an id that is
+pending on the connection.  (`InboundTimeout` / `InboundStreamFailed` for an id the behaviour has not
+seen are legitimate — the stream failed before the request was read — and the code handles them.)
+This is what the code's `expect`s and `debug_assert!`s state. -/
+def inContract (s : St) : Op → Bool
+  | .closed p c => !(s.connected p).isEmpty && (takeConn c (s.connected p)).isSome
+  | .hOut p c id _ => (removeP true c id (s.connected p)).1
+  | .hIn p c id k => !k.asserted || (removeP false c id (s.connected p)).1
+  | .hRequest p c id =>
+    match insertIn c id (s.connected p) with
+    | some r => r.1
+    | none => true
+  | _ => true
+
+/-- every operation of the sequence is in-contract at the state it is applied to -/
+def okRun : St → List Op → Bool
+  | _, [] => true
+  | s, o :: os => inContract s o && okRun (step false s o).1 os
+
 /-- `is_pending_outbound(p, id)` -/
 def isPendingOut (s : St) (p : Peer) (id : RId) : Bool :=
   (s.connected p).any (fun c => decide (id ∈ c.pout)) || decide (id ∈ s.pending p)
@@ -364,7 +387,8 @@ def specKey (t : Trace) : Option String :=
   else if fresh && !decide (clDeliveredIn t) then some "outcome_undelivered_in"
   else if fresh && !decide (clPartIn t) then some "partition_in"
   else if fresh && !decide (clQuiesIn t) then some "quiescence_in"
-  else if !panicsOk [] t then some "panic"
+  -- the behaviour never panics (on in-contract operations)
+  else if !t.all (fun e => e.out.panic.isNone) then some "panic"
   else none
 
 def spec (t : Trace) : Bool := (specKey t).isNone
